@@ -31,6 +31,9 @@ type C12Stream struct {
 	OpenAfter int `json:"open_after,omitempty"`
 	// CloseEnd: the client closes the stream after its exchange completed (stream churn)
 	CloseEnd bool `json:"close_end,omitempty"`
+	// CloseAt: a separate task closes the client's stream once that many bytes
+	// were read in total (0: never), possibly while its reader is parked in Read
+	CloseAt int `json:"close_at,omitempty"`
 }
 
 type C12Scenario struct {
@@ -41,6 +44,11 @@ type C12Scenario struct {
 	// Linger: after the workload completed keep the world running until the
 	// inactivity timers had their say
 	Linger bool `json:"linger,omitempty"`
+}
+
+type c12Closer struct {
+	at int // total bytes read (both sides) at which the closer task is started
+	fn func()
 }
 
 type c12Task struct {
@@ -59,6 +67,7 @@ type c12Run struct {
 	cRead   int
 	sRead   int
 	pending []int // streams not opened yet (by OpenAfter)
+	closers []c12Closer
 	closeFn func()
 	closed  bool // session Close requested by the harness
 	bad     string
@@ -156,6 +165,14 @@ func (r *c12Run) progress() {
 		r.pending = r.pending[1:]
 		r.startOpener(i)
 	}
+	for k := 0; k < len(r.closers); k++ {
+		if r.closers[k].at <= r.cRead+r.sRead {
+			fn := r.closers[k].fn
+			r.closers = append(r.closers[:k], r.closers[k+1:]...)
+			k--
+			fn()
+		}
+	}
 	f := r.sc.Fault
 	if r.closeFn != nil {
 		n := r.cRead
@@ -194,6 +211,17 @@ func (r *c12Run) startOpener(i int) {
 			return
 		}
 		r.task("opener-w", func(t *c12Task) { r.write(t, stream, st, 0, st.plan.Up) })
+		if ca := r.sc.Streams[i].CloseAt; ca > 0 {
+			// another task closes the stream while this one may be parked in Read
+			r.closers = append(r.closers, c12Closer{at: ca, fn: func() {
+				r.task("stream-closer", func(t *c12Task) {
+					t.inCall = "Stream.Close"
+					st.harnessClosed = true
+					stream.Close()
+					t.inCall = ""
+				})
+			}})
+		}
 		if r.read(t, stream, st, 1, st.plan.Down, &st.downRead, 0) && r.sc.Streams[i].CloseEnd {
 			t.inCall = "Stream.Close"
 			st.harnessClosed = true
@@ -320,6 +348,9 @@ func genC12Streams(g *Gen, ns, maxBytes int) []C12Stream {
 		pl.Up = g.Int(0, lim)
 		pl.Down = g.Int(0, lim)
 		s := C12Stream{StreamPlan: pl, CloseEnd: g.Bool(0.3)}
+		if g.Bool(0.3) {
+			s.CloseAt = g.Pick(1, 8, 9, 100, 1000, 3000)
+		}
 		if i > 0 && g.Bool(0.5) {
 			s.OpenAfter = g.Pick(0, 1, 100, 1000, 4000)
 		}
